@@ -12,7 +12,6 @@ import (
 	"go/types"
 	"strings"
 
-	"golang.org/x/tools/go/ast/astutil"
 	"golang.org/x/tools/go/ssa"
 )
 
@@ -461,7 +460,7 @@ func loopStmtOf(w *World, fn *ssa.Function, l *natLoop) ast.Stmt {
 	}
 	for _, f := range pkg.Syntax {
 		if f.Pos() <= lo && hi <= f.End() {
-			path, _ := astutil.PathEnclosingInterval(f, lo, hi)
+			path := pathEnclosing(f, lo, hi)
 			for _, n := range path {
 				switch x := n.(type) {
 				case *ast.ForStmt:
